@@ -50,11 +50,11 @@ METHODS = {
         ('jump_diffusivity', [((3,), {}), ((1,), {}), ((2,), {}), ((), {'dimensions': 2}), ((), {'dimensions': 3})]),
         ('matrix', [((), {})]),
         ('collective', [((), {}), ((0.5,), {}), ((2.0,), {}), ((), {'max_dist': 4.0}), ((), {'max_dist': 2.0}), ((1,), {})]),
-        ('activation_energies', [((2,), {}), ((3,), {}), ((), {'n_parts': 2})]),
+        ('activation_energies', [((2,), {}), ((3,), {}), ((), {'n_parts': 2}), ((60,), {})]),
         ('counter', [((), {})]),
         ('_counter', [((), {})]),
         ('to_graph', [((), {}), ((None, 0.5), {}), ((0.1,), {}), ((), {'max_e_act': 0.3}), ((), {'min_e_act': 0.2, 'max_e_act': 0.6})]),
-        ('rates', [((2,), {}), ((3,), {}), ((), {'n_parts': 2})]),
+        ('rates', [((2,), {}), ((3,), {}), ((), {'n_parts': 2}), ((60,), {})]),
         ('n_solo_jumps', [('property', {})]),
         ('solo_fraction', [('property', {})]),
     ],
@@ -309,7 +309,7 @@ class World:
             shift = np.zeros_like(self.pos)
             shift[:, :, 1] = 0.0007 * v * np.arange(len(self.pos))[:, None] / len(self.pos)
             t = Trajectory(species=self.species, coords=np.mod(self.pos + shift, 1), lattice=self.lattice, time_step=self.dt,
-                           metadata={'temperature': self.p['temp']})
+                           metadata={'temperature': self.p['temp']} if v != 2 else {'note': 'no temperature'})
             self._variants[v] = t
         return t
 
